@@ -43,6 +43,8 @@ def cases(draw, tier="quick"):
         if P["closes"][0][1] == "halfopen":
             P["hs_slow"] = list(P["hs_slow"])
             P["hs_slow"][P["closes"][0][0]] = "only"
+    P["w_due"] = draw(st.sampled_from([None, None, 1, 2]))      # eventual-send turns may lag behind the network
+    P["gets_lag"] = draw(st.booleans())      # a reader that calls get_message() only after messages have arrived
     n = draw(st.integers(0, 260))
     P["tape"] = draw(st.binary(min_size=n, max_size=n))
     return P
